@@ -74,6 +74,9 @@ func writeEvidence(prop, tier string, seed uint64, plan *Plan, agg *aggregate, n
 		"violations":  nviol,
 	}
 	dir := filepath.Join(verifRoot, "evidence")
+	if d := os.Getenv("VERIF_OUT"); d != "" {
+		dir = filepath.Join(d, "evidence") // scratch runs against mutated copies must not overwrite real evidence
+	}
 	if err := os.MkdirAll(dir, 0o755); err != nil {
 		return infra("evidence dir: %v", err)
 	}
